@@ -24,7 +24,7 @@ CLAIMED = {
     "C02": ("text", "Lean 4 proof (content preservation at document level per construct; comments attached and kept; reader value typing; list values) + content-model oracle + AST correspondence",
             "Theorems: reading the canonical text of every document of the classes of C01 yields exactly its name, keys, nesting, order, section ids and values with their types, nothing else, through "
             "the strict and lenient entry points with the exact warning list (C02_flat/_tree/_meta/_sect/_list_content_preserved, ..._lenient_read_silent); every leading, trailing (also empty) and "
-            "end-of-document comment of a tree is attached to its node and read back as written, orphan comments stay in their block (C02_ctree_content_preserved, C02_ctree_comments_in_order, C02_comment_orphans, C02_otree_document_read); "
+            "end-of-document comment of a tree is attached to its node and read back as written, orphan comments stay in their block (C02_ctree_content_preserved, C02_ctree_comments_in_order, C02_comment_orphans, C02_otree_document_read), end to end for trees whose blocks end with orphan comment lines at any depth (C02_orphantree_canonical_is_readable, C02_orphantree_fixed_point, C02_orphantree_comments_in_order); "
             "parseValue on (nested) list tokens of any length returns exactly the list (C02_nested_list_typed); at document level the item at ANY index path of a nested list is read back at the same path with its type (C02_nested_content_preserved, C02_nested_item_preserved). PARTIAL: mixtures outside the unified classes, inline maps, holographic values, zones in "
             "lists are backed by the content oracle (content known independently of any parser, covering matrix value kind x position) and the correspondence on full ASTs with positions."),
     "C03": ("text", "Lean 4 proof (convergence of every whitespace/quote spelling of flat documents, every alias spelling of expressions, every layout of list values, # section markers) + convergence search",
